@@ -135,6 +135,20 @@ def gen_c01(tier: str, rng: random.Random) -> Iterator[Dict[str, Any]]:
                     steps.append({"s": "dt", "d": 0.1})
                     s2["steps"] = steps
                     yield s2
+    # read_timeout bounds the wait for client bytes - not the time an application takes to make room in its
+    # queue: a body of more messages than the queue holds, all sent at once, and an application that starts
+    # reading only after several read_timeouts have passed
+    for framing in ("cl", "chunked"):
+        for qsize in (1, 3):
+            body = {"framing": framing, "len": 40, "chunks": [5] * 8}
+            req = {"rid": 1, "method": "POST", "target": "/slow-reader", "body": body}
+            sc = base_script([req], {"*": [["gate"]] + build.simple_resp_program(chunks=[3])},
+                             cfg={"read_timeout": 1, "max_app_queue_size": qsize}, fam="c01/read-timeout/%s/q%d" % (framing, qsize))
+            total = stream_len(sc)
+            for cuts in ([], [sc["reqs"][0]["head_end"] + 7]):
+                s2 = dict(sc)
+                s2["steps"] = _split_steps(total, cuts) + [{"s": "dt", "d": 3.0}, {"s": "go", "app": "1", "n": 1}, {"s": "dt", "d": 0.2}]
+                yield s2
     # raw header pass-through
     req = {"rid": 1, "method": "GET", "toks": targets[1], "headers": HEADER_SETS[1]}
     sc = base_script([req], {"*": build.simple_resp_program(chunks=[1])}, cfg={"h11_pass_raw_headers": True},
@@ -336,6 +350,23 @@ def gen_c06(tier: str, rng: random.Random) -> Iterator[Dict[str, Any]]:
             else:
                 sc["steps"] = [{"s": "send", "upto": total}, {"s": "dt", "d": 0.1}]
             yield sc
+    # a message that goes wrong after its head: a chunk-size line that is not a number, or the client's EOF in
+    # the middle of the body - alone and as the second request of a pipeline, with the application waiting
+    # for the body (no response started yet): close is announced on a response, then the connection closes
+    for how in ("bad-chunk", "eof-mid-chunked", "eof-mid-length"):
+        for position in ("first", "second"):
+            if how == "bad-chunk":
+                body = {"framing": "chunked", "len": 9, "chunks": [4], "sent": 4, "bad_chunk": True}
+            elif how == "eof-mid-chunked":
+                body = {"framing": "chunked", "len": 9, "chunks": [4, 5], "sent": 4}
+            else:
+                body = {"framing": "cl", "len": 10, "sent": 3}
+            reqs = ([{"rid": 1, "method": "GET", "target": "/ok"}] if position == "second" else []) + \
+                   [{"rid": 2, "method": "POST", "target": "/broken", "body": body}]
+            apps = {"1": build.simple_resp_program(chunks=[2]), "2": [["recv_body"]] + build.simple_resp_program(chunks=[2], read_first=False)}
+            sc = base_script(reqs, apps, fam="c06/message-goes-wrong/%s/%s" % (how, position))
+            sc["steps"] = [{"s": "send"}, {"s": "dt", "d": 0.05}] + ([] if how == "bad-chunk" else [{"s": "eof"}]) + [{"s": "dt", "d": 0.1}]
+            yield sc
     # malformed second request: first is served, second gets 400 + close
     reqs = [{"rid": 1, "method": "GET", "target": "/ok"},
             {"rid": 2, "raw_head": "GET / HTTP/1.1\r\nbad header line\r\n\r\n", "bad": True, "method": "GET"}]
@@ -416,6 +447,9 @@ def gen_faults(tier: str, rng: random.Random, focus: str = "c03") -> Iterator[Di
             ends.append(("cancel", cut))
             if focus == "c05":
                 ends.append(("raise_group", cut))
+            if focus == "c03" and 0 < cut < nops:
+                # the application stops part-way through its response and waits to be told that the client went
+                ends.append(("disc", cut))
         for end, cut in ends:
             if tier == "quick" and end != "disc" and focus == "c07" and cut not in (0, nops):
                 continue
@@ -553,6 +587,16 @@ def gen_c07(tier: str, rng: random.Random) -> Iterator[Dict[str, Any]]:
                 sc2 = base_script(reqs2, {"*": build.simple_resp_program(chunks=[2])}, cfg=cfg, fam="c07/pause-at/%s/%d" % (ka, pos))
                 sc2["steps"] = base[:pos] + [{"s": "dt", "d": d}] + base[pos:] + [{"s": "dt", "d": 0.01}]
                 yield sc2
+        # the beginning of the next request head (1 byte, 5 bytes, all but the last byte) arrives while the first
+        # request is still in progress; the response then completes and the client stays silent
+        for extra in (1, 5, -1):
+            prog1 = [["recv_body"], ["gate"]] + build.simple_resp_program(chunks=[2], read_first=False)
+            sc3 = base_script(reqs2, {"1": prog1, "2": build.simple_resp_program(chunks=[2])}, cfg=cfg,
+                              fam="c07/partial-next-head-during-response/%s/%d" % (ka, extra))
+            upto = first_end + extra if extra > 0 else sc3["reqs"][1]["head_end"] - 1
+            sc3["steps"] = [{"s": "send", "upto": first_end}, {"s": "dt", "d": 0.01}, {"s": "send", "upto": upto}, {"s": "dt", "d": ka * 2},
+                            {"s": "go", "app": "1", "n": 1}, {"s": "dt", "d": ka - eps}, {"s": "dt", "d": eps}, {"s": "dt", "d": ka}]
+            yield sc3
         # error response generated by the server for an unknown host: connection then idle
         badhost = [{"rid": 1, "method": "GET", "target": "/nohost", "headers": [["host", "other.example"]], "kind": "badhost"}]
         sc = base_script(badhost, {"*": build.simple_resp_program(chunks=[2])}, cfg=dict(cfg, server_names=["hypercorn"]),
